@@ -707,6 +707,10 @@ def _process_class( cls, add_init=True, add_str=True, add_repr=True,
 
   cls.__deepcopy__ = _mk_deepcopy_fn( fields )
 
+  # copy.copy() of the default object protocol would share the field objects
+  if '__copy__' not in cls.__dict__:
+    cls.__copy__ = cls.clone
+
   # Shunning: add imatmul for assignment, as well as nbits/to_bits/from_bits
   assert '__imatmul__' not in cls.__dict__ and 'to_bits' not in cls.__dict__ and \
          'nbits' not in cls.__dict__ and 'from_bits' not in cls.__dict__
